@@ -146,10 +146,26 @@ Lemma rs_reset_if_any_state sid e q e' r : rs_reset_if_any sid e q = (e', r) ->
   (rs_r_hit r = false -> rs_obj e' = rs_obj e /\ rs_present e' = rs_present e).
 Proof.
   unfold rs_reset_if_any. destruct (sna32LTE (rs_q_last q) (rs_cum e)) eqn:E; intros H; inversion H; subst; clear H; cbn [rs_r_hit].
-  - destruct (rs_mem sid (rs_q_ids q) && rs_present e)%bool eqn:Eh; cbn;
-      repeat match goal with |- _ /\ _ => split | |- _ -> _ => intro end; try reflexivity; try discriminate.
-    apply andb_true_iff in Eh. apply Eh.
+  - destruct (rs_mem sid (rs_q_ids q) && negb (rs_already e q))%bool eqn:Ef; destruct (rs_present e) eqn:Ep; cbn;
+      repeat match goal with |- _ /\ _ => split | |- _ -> _ => intro end; try reflexivity; try discriminate; try assumption.
   - cbn. repeat match goal with |- _ /\ _ => split | |- _ -> _ => intro end; try reflexivity; try discriminate.
+Qed.
+
+(* the record of performed requests (fd7385c) *)
+Lemma rs_reset_if_any_done sid e q e' r : rs_reset_if_any sid e q = (e', r) ->
+  (rs_r_hit r = true -> rs_mem sid (rs_q_ids q) = true /\ rs_already e q = false) /\
+  (rs_done e' = rs_done e \/
+   (rs_done e' = Some (rs_q_rsn q) /\ rs_already e q = false /\ rs_mem sid (rs_q_ids q) = true /\
+    rs_r_res r = c_reconfigResultSuccessPerformed)) /\
+  (rs_already e q = true -> rs_obj e' = rs_obj e /\ rs_present e' = rs_present e /\ rs_done e' = rs_done e /\ rs_r_hit r = false) /\
+  (sna32LTE (rs_q_last q) (rs_cum e) = true -> rs_mem sid (rs_q_ids q) = true -> rs_already e q = false ->
+     rs_done e' = Some (rs_q_rsn q) /\ rs_present e' = false /\ rs_r_hit r = rs_present e).
+Proof.
+  unfold rs_reset_if_any. destruct (sna32LTE (rs_q_last q) (rs_cum e)) eqn:E; intros H; inversion H; subst; clear H; cbn [rs_r_hit rs_r_res].
+  - destruct (rs_mem sid (rs_q_ids q)) eqn:Em; destruct (rs_already e q) eqn:Ea; destruct (rs_present e) eqn:Ep; cbn;
+      repeat match goal with |- _ /\ _ => split | |- _ -> _ => intro end; try reflexivity; try discriminate; try assumption;
+      try (left; reflexivity); try (right; repeat split; reflexivity).
+  - cbn. repeat match goal with |- _ /\ _ => split | |- _ -> _ => intro end; try reflexivity; try discriminate; try (left; reflexivity).
 Qed.
 
 Lemma rs_retry_list_ok sid : forall l e acc e' acc',
@@ -306,7 +322,7 @@ Proof.
   - inversion H; subst. unfold rs_recv_response. destruct (result =? c_reconfigResultInProgress); [split; reflexivity|].
     cbn [fst]. destruct (result =? c_reconfigResultSuccessPerformed); [|split; reflexivity].
     destruct (rs_req_get (rs_reconfigs e) rsn); [|split; reflexivity].
-    destruct (rs_mem sid (rs_q_ids r) && rs_present e)%bool; split; reflexivity.
+    destruct (rs_mem sid (rs_q_ids r) && rs_present e && negb (rs_state (rs_obj e) =? rs_st_open))%bool; split; reflexivity.
 Qed.
 
 Lemma rs_step_no_lost_wakeup sid e ev e' out :
@@ -343,7 +359,7 @@ Qed.
 (* the FORWARD-TSN path: the cumulative point jumps past a deferred request's senderLastTSN and the
    request stays stored (until a later pop or a retransmission of the request) *)
 Definition rs_fwd_witness : rs_ep :=
-  mkRsEp true true (rs_fresh_strm 1) false [] [] false 100 100 [] false 5 8448 [] [mkRsReq 7 10 [1]].
+  mkRsEp true true (rs_fresh_strm 1) false [] [] false 100 100 [] false 5 8448 [] [mkRsReq 7 10 [1]] None.
 
 Lemma rs_lost_wakeup_after_fwd : exists e' q,
   rs_recv_fwd 1 rs_fwd_witness 10 None = (e', []) /\ rs_cum e' = 10 /\ rs_present e' = true /\ rs_eof (rs_obj e') = false /\
@@ -423,12 +439,25 @@ Proof. cbn. repeat split; reflexivity. Qed.
 
 Lemma rs_response_performed_resets sid e rsn q :
   rs_req_get (rs_reconfigs e) rsn = Some q -> rs_mem sid (rs_q_ids q) = true -> rs_present e = true ->
+  rs_state (rs_obj e) <> rs_st_open ->
   let e' := fst (rs_recv_response sid e rsn c_reconfigResultSuccessPerformed) in
   rs_ssn (rs_obj e') = 0 /\ rs_omid (rs_obj e') = 0 /\ rs_umid (rs_obj e') = 0 /\
   rs_state (rs_obj e') = rs_state (rs_obj e) /\ rs_eof (rs_obj e') = rs_eof (rs_obj e) /\ rs_present e' = true.
 Proof.
-  intros Hg Hm Hp. unfold rs_recv_response. replace (c_reconfigResultSuccessPerformed =? c_reconfigResultInProgress) with false by reflexivity.
-  rewrite Z.eqb_refl, Hg, Hm, Hp. cbn. repeat split; reflexivity.
+  intros Hg Hm Hp Hs. unfold rs_recv_response. replace (c_reconfigResultSuccessPerformed =? c_reconfigResultInProgress) with false by reflexivity.
+  rewrite Z.eqb_refl, Hg, Hm, Hp. replace (rs_state (rs_obj e) =? rs_st_open) with false by lia. cbn. repeat split; reflexivity.
+Qed.
+
+(* a186bb2: whatever response arrives, an open stream keeps its counters (the stream that sent a reset
+   request has left the open state; an open one under the identifier is a later incarnation) *)
+Lemma rs_response_open_untouched sid e rsn result : rs_state (rs_obj e) = rs_st_open ->
+  rs_obj (fst (rs_recv_response sid e rsn result)) = rs_obj e /\
+  rs_present (fst (rs_recv_response sid e rsn result)) = rs_present e.
+Proof.
+  intros Hs. unfold rs_recv_response. destruct (result =? c_reconfigResultInProgress); [split; reflexivity|].
+  cbn [fst]. destruct (result =? c_reconfigResultSuccessPerformed); [|split; reflexivity].
+  destruct (rs_req_get (rs_reconfigs e) rsn) as [q|]; [|split; reflexivity].
+  rewrite Hs, Z.eqb_refl, andb_false_r. split; reflexivity.
 Qed.
 
 Lemma rs_open_fresh e : rs_present e = false ->
@@ -474,7 +503,38 @@ Lemma rs_request_absent_harmless sid e q e' r :
 Proof.
   intros Hp H. unfold rs_recv_request in H. destruct (_ && _)%bool; [discriminate|]. inversion H as [H1]. clear H.
   unfold rs_reset_if_any in H1. cbn [rs_set_rcv rs_cum rs_present rs_obj] in H1. rewrite Hp, andb_false_r in H1.
-  destruct (sna32LTE (rs_q_last q) (rs_cum e)); inversion H1; subst; cbn; repeat split; try reflexivity; exact Hp.
+  destruct (sna32LTE (rs_q_last q) (rs_cum e)); inversion H1; subst; [|cbn; repeat split; try reflexivity; exact Hp].
+  destruct (rs_mem sid (rs_q_ids q) && _)%bool; cbn; repeat split; try reflexivity; exact Hp.
+Qed.
+
+(* fd7385c: a request that is not newer than the one already performed for the identifier (retransmission
+   after a lost response, network duplicate) is answered but touches neither the stream registered under
+   the identifier now nor the record *)
+Lemma rs_request_already_performed sid e q e' r p :
+  rs_done e = Some p -> sna32LTE (rs_q_rsn q) p = true -> rs_recv_request sid e q = Some (e', r) ->
+  rs_obj e' = rs_obj e /\ rs_present e' = rs_present e /\ rs_done e' = rs_done e /\ rs_r_hit r = false /\
+  (sna32LTE (rs_q_last q) (rs_cum e) = true -> rs_r_res r = c_reconfigResultSuccessPerformed).
+Proof.
+  intros Hd Hl H. unfold rs_recv_request in H. destruct (_ && _)%bool; [discriminate|]. inversion H as [H1]. clear H.
+  set (e0 := rs_set_rcv e (rs_cum e) (rs_rcvd e) (rs_req_put (rs_reqs e) q)) in *.
+  assert (Ha : rs_already e0 q = true) by (unfold rs_already, e0; cbn; rewrite Hd; exact Hl).
+  destruct (rs_reset_if_any_done _ _ _ _ _ H1) as (_ & _ & Hal & _). destruct (Hal Ha) as (A & B & C & D).
+  split; [exact A|]. split; [exact B|]. split; [exact C|]. split; [exact D|].
+  intros Hdue. unfold rs_reset_if_any in H1. cbn [e0 rs_set_rcv rs_cum] in H1. rewrite Hdue in H1. inversion H1; subst. reflexivity.
+Qed.
+
+(* ... while the request of the next incarnation (newer sequence number) is performed and recorded *)
+Lemma rs_request_newer_performed sid e q e' r :
+  rs_already e q = false -> rs_mem sid (rs_q_ids q) = true -> sna32LTE (rs_q_last q) (rs_cum e) = true ->
+  rs_recv_request sid e q = Some (e', r) ->
+  rs_done e' = Some (rs_q_rsn q) /\ rs_present e' = false /\ rs_r_hit r = rs_present e /\
+  rs_r_res r = c_reconfigResultSuccessPerformed.
+Proof.
+  intros Ha Hm Hdue H. unfold rs_recv_request in H. destruct (_ && _)%bool; [discriminate|]. inversion H as [H1]. clear H.
+  set (e0 := rs_set_rcv e (rs_cum e) (rs_rcvd e) (rs_req_put (rs_reqs e) q)) in *.
+  destruct (rs_reset_if_any_done _ _ _ _ _ H1) as (_ & _ & _ & Hn).
+  destruct (Hn Hdue Hm Ha) as (A & B & C). split; [exact A|]. split; [exact B|]. split; [exact C|].
+  unfold rs_reset_if_any in H1. cbn [e0 rs_set_rcv rs_cum] in H1. rewrite Hdue in H1. inversion H1; subst. reflexivity.
 Qed.
 
 (* frame: RECONFIG parameters that do not name the identifier never touch its object *)
@@ -485,6 +545,15 @@ Proof.
   intros Hm H. unfold rs_recv_request in H. destruct (_ && _)%bool; [discriminate|]. inversion H as [H1]. clear H.
   unfold rs_reset_if_any in H1. rewrite Hm in H1. cbn [andb] in H1.
   destruct (sna32LTE _ _); inversion H1; subst; cbn; repeat split; reflexivity.
+Qed.
+
+(* ... nor the record of performed requests *)
+Lemma rs_request_frame_done sid e q e' r :
+  rs_mem sid (rs_q_ids q) = false -> rs_recv_request sid e q = Some (e', r) -> rs_done e' = rs_done e.
+Proof.
+  intros Hm H. unfold rs_recv_request in H. destruct (_ && _)%bool; [discriminate|]. inversion H as [H1]. clear H.
+  unfold rs_reset_if_any in H1. rewrite Hm in H1. cbn [andb] in H1.
+  destruct (sna32LTE _ _); inversion H1; subst; cbn; reflexivity.
 Qed.
 
 Lemma rs_response_frame sid e rsn result :
@@ -560,7 +629,7 @@ Proof. unfold rs_snd_same. intros (A1 & A2 & A3 & A4 & A5 & A6 & A7 & A8 & A9) (
 Lemma rs_reset_if_any_snd sid e q e' r : rs_reset_if_any sid e q = (e', r) -> rs_snd_same e e'.
 Proof.
   unfold rs_reset_if_any. destruct (sna32LTE _ _); intros H; inversion H; subst; [|apply rs_snd_same_refl].
-  destruct (rs_mem sid (rs_q_ids q) && rs_present e)%bool; unfold rs_snd_same; cbn; repeat split; reflexivity.
+  destruct (rs_mem sid (rs_q_ids q) && negb (rs_already e q))%bool; destruct (rs_present e); unfold rs_snd_same; cbn; repeat split; reflexivity.
 Qed.
 
 Lemma rs_retry_list_snd sid : forall l e acc e' acc', rs_retry_list sid l e acc = (e', acc') -> rs_snd_same e e'.
@@ -623,7 +692,7 @@ Proof.
     cbn [fst]. destruct (Z.eq_dec rsn0 rsn) as [Heq|Hne]; [subst; specialize (Hfin result eq_refl); lia|].
     match goal with |- rs_req_get (rs_reconfigs (rs_set_snd ?E1 _ _ ?RC _)) _ = _ => assert (Hrc : rs_reconfigs E1 = rs_reconfigs e) end.
     { destruct (result =? c_reconfigResultSuccessPerformed); [|reflexivity].
-      destruct (rs_req_get (rs_reconfigs e) rsn0); [|reflexivity]. destruct (rs_mem sid (rs_q_ids r) && rs_present e)%bool; reflexivity. }
+      destruct (rs_req_get (rs_reconfigs e) rsn0); [|reflexivity]. destruct (rs_mem sid (rs_q_ids r) && rs_present e && negb (rs_state (rs_obj e) =? rs_st_open))%bool; reflexivity. }
     cbn [rs_set_snd rs_reconfigs]. rewrite Hrc, rs_get_del_other; [exact Hg|congruence].
   - destruct (rs_recv_request sid e q0) as [[e1 r]|] eqn:E; inversion H; subst; [|exact Hg].
     destruct (rs_recv_request_snd _ _ _ _ _ E) as (A & _). rewrite A. exact Hg.
@@ -1167,7 +1236,7 @@ Proof.
       (destruct (result =? c_reconfigResultInProgress); [reflexivity|]); cbn [fst];
       (destruct (result =? c_reconfigResultSuccessPerformed); [|reflexivity]);
       (destruct (rs_req_get (rs_reconfigs e) rsn); [|reflexivity]);
-      (destruct (rs_mem sid (rs_q_ids r) && rs_present e)%bool; reflexivity).
+      (destruct (rs_mem sid (rs_q_ids r) && rs_present e && negb (rs_state (rs_obj e) =? rs_st_open))%bool; reflexivity).
   - (* request *)
     destruct (rs_recv_request sid e q) as [[e1 r]|] eqn:E; inversion H; subst; [|exact Hinv].
     destruct (rs_recv_request_snd _ _ _ _ _ E) as (_ & _ & A3 & _ & A5 & A6 & A7 & A8 & _). eapply rs_ainv_same; try exact Hinv; assumption.
@@ -1246,7 +1315,7 @@ Qed.
 
 Definition rs_shape (e : rs_ep) (u o : list rs_pchunk) (s : bool) (t : Z) : rs_ep :=
   mkRsEp (rs_estab e) (rs_present e) (rs_obj e) (rs_fifo e) u o s t (rs_next_rsn e) (rs_reconfigs e) (rs_will_rtx e)
-         (rs_cum e) (rs_maxoff e) (rs_rcvd e) (rs_reqs e).
+         (rs_cum e) (rs_maxoff e) (rs_rcvd e) (rs_reqs e) (rs_done e).
 
 Lemma rs_pop_head_shape e c e' : rs_pop_head e = Some (c, e') -> exists u o s, e' = rs_shape e u o s (rs_next_tsn e).
 Proof.
@@ -1328,7 +1397,7 @@ Proof.
   - exfalso. inversion H; subst. unfold rs_recv_response in *. destruct (result =? c_reconfigResultInProgress); [apply Hsame; auto|].
     cbn [fst] in *. destruct (result =? c_reconfigResultSuccessPerformed); [|apply Hsame; auto].
     destruct (rs_req_get (rs_reconfigs e) rsn); [|apply Hsame; auto].
-    destruct (rs_mem sid (rs_q_ids r) && rs_present e)%bool eqn:Em; [|apply Hsame; auto].
+    destruct (rs_mem sid (rs_q_ids r) && rs_present e && negb (rs_state (rs_obj e) =? rs_st_open))%bool eqn:Em; [|apply Hsame; auto].
     apply andb_true_iff in Em. destruct Em as [_ Em]. apply Hsame; auto.
   - destruct (rs_recv_request sid e q) as [[e1 r]|] eqn:E; inversion H; subst; [|exfalso; apply Hsame; auto].
     cbn [rs_o_resps] in *. destruct (rs_r_hit r) eqn:Eh; [apply (Hfin r (or_introl eq_refl) Eh)|]. exfalso.
@@ -1380,13 +1449,18 @@ Definition rs_stale_request_history : list rs_sev :=
     RsEDeliver 6;                                          (* B: the old request hits incarnation 2 *)
     RsERead false ].
 
-Lemma rs_stale_request_witness : exists s log,
-  rs_sys_run 1 rs_sys0 rs_stale_request_history [] = Some (s, log) /\
-  log = [RsMsg 0; RsEOF; RsMsg 0; RsEOF] /\
-  rs_gen (rs_obj (rs_a s)) = 2 /\ rs_state (rs_obj (rs_a s)) = rs_st_open /\     (* A's second incarnation is open *)
-  rs_gen (rs_obj (rs_b s)) = 2 /\ rs_eof (rs_obj (rs_b s)) = true /\ rs_present (rs_b s) = false.
+(* before fd7385c this history ended with [RsMsg 0; RsEOF; RsMsg 0; RsEOF]: B's object of the new incarnation got
+   EOF and was unregistered.  Now the retransmitted request is answered without being performed; the late
+   answer (net 7) leaves A's open stream alone (a186bb2) and the next message is delivered in sequence. *)
+Lemma rs_stale_request_now_harmless : exists s log,
+  rs_sys_run 1 rs_sys0 (rs_stale_request_history ++
+     [RsEDeliver 7; RsEWrite true 5; RsEGather true [RsMine 1 false] []; RsEDeliver 8; RsERead false]) [] = Some (s, log) /\
+  log = [RsMsg 0; RsEOF; RsMsg 0; RsWait; RsMsg 1] /\
+  rs_gen (rs_obj (rs_a s)) = 2 /\ rs_state (rs_obj (rs_a s)) = rs_st_open /\ rs_ssn (rs_obj (rs_a s)) = 2 /\
+  rs_gen (rs_obj (rs_b s)) = 2 /\ rs_eof (rs_obj (rs_b s)) = false /\ rs_present (rs_b s) = true /\
+  rs_done (rs_b s) = Some 1000.
 Proof.
-  destruct (rs_sys_run 1 rs_sys0 rs_stale_request_history []) as [[s log]|] eqn:E; [|vm_compute in E; discriminate].
+  match goal with |- exists s log, ?R = _ /\ _ => destruct R as [[s log]|] eqn:E; [|vm_compute in E; discriminate] end.
   exists s, log. split; [reflexivity|]. vm_compute in E. inversion E; subst. vm_compute. repeat split; reflexivity.
 Qed.
 
@@ -1404,10 +1478,13 @@ Definition rs_late_response_history : list rs_sev :=
     RsEDeliver 1;                                          (* the delayed response arrives *)
     RsEWrite true 6; RsEGather true [RsMine 1 false] []; RsEDeliver 6; RsERead false ]. (* SSN 0 again *)
 
-Lemma rs_late_response_witness : exists s log,
+(* before a186bb2 this history ended with [RsEOF; RsMsg 0; RsMsg 1; RsWait] and A's SSN back at 1; now the
+   delayed response leaves the open stream alone and the third message carries SSN 2 *)
+Lemma rs_late_response_now_harmless : exists s log,
   rs_sys_run 1 rs_sys0 rs_late_response_history [] = Some (s, log) /\
-  log = [RsEOF; RsMsg 0; RsMsg 1; RsWait] /\           (* the third message is never readable *)
-  rs_gen (rs_obj (rs_a s)) = 2 /\ rs_ssn (rs_obj (rs_a s)) = 1 /\ rs_rnext (rs_obj (rs_b s)) = 2 /\ rs_rbuf (rs_obj (rs_b s)) = [].
+  log = [RsEOF; RsMsg 0; RsMsg 1; RsMsg 2] /\
+  rs_gen (rs_obj (rs_a s)) = 2 /\ rs_ssn (rs_obj (rs_a s)) = 3 /\ rs_reconfigs (rs_a s) = [] /\
+  rs_rnext (rs_obj (rs_b s)) = 3 /\ rs_rbuf (rs_obj (rs_b s)) = [].
 Proof.
   destruct (rs_sys_run 1 rs_sys0 rs_late_response_history []) as [[s log]|] eqn:E; [|vm_compute in E; discriminate].
   exists s, log. split; [reflexivity|]. vm_compute in E. inversion E; subst. vm_compute. repeat split; reflexivity.
@@ -1463,4 +1540,90 @@ Proof.
   destruct rs_example_history_ok as (e & gh & Hg & Hm & _ & Hw & _). exists e, gh. split; [|split; assumption].
   eapply rs_grun_reach; [apply rs_reach_refl| |exact Hg].
   vm_compute. repeat (split || constructor); try reflexivity; try discriminate.
+Qed.
+
+(* ================================================================ the record of performed requests changes only by performing one *)
+
+Definition rs_done_ok (e e' : rs_ep) (news : list rs_resp) : Prop :=
+  rs_done e' = rs_done e \/
+  exists r, In r news /\ rs_r_res r = c_reconfigResultSuccessPerformed /\ rs_done e' = Some (rs_r_rsn r).
+
+Lemma rs_reset_if_any_done_ok sid e q e' r : rs_reset_if_any sid e q = (e', r) -> rs_done_ok e e' [r].
+Proof.
+  intros H. assert (Hr : rs_r_rsn r = rs_q_rsn q).
+  { unfold rs_reset_if_any in H. destruct (sna32LTE _ _); inversion H; subst; reflexivity. }
+  destruct (rs_reset_if_any_done _ _ _ _ _ H) as (_ & [Hd|(Hd & _ & _ & Hres)] & _); [left; exact Hd|].
+  right. exists r. split; [left; reflexivity|]. split; [exact Hres|]. rewrite Hr. exact Hd.
+Qed.
+
+Lemma rs_done_ok_trans a b c n1 n2 : rs_done_ok a b n1 -> rs_done_ok b c n2 -> rs_done_ok a c (n1 ++ n2).
+Proof.
+  intros [H1|(r1 & I1 & P1 & D1)] [H2|(r2 & I2 & P2 & D2)].
+  - left. congruence.
+  - right. exists r2. split; [apply in_or_app; right; exact I2|split; assumption].
+  - right. exists r1. split; [apply in_or_app; left; exact I1|split; [exact P1|congruence]].
+  - right. exists r2. split; [apply in_or_app; right; exact I2|split; assumption].
+Qed.
+
+Lemma rs_retry_list_done sid : forall l e acc e' acc',
+  rs_retry_list sid l e acc = (e', acc') -> exists news, acc' = acc ++ news /\ rs_done_ok e e' news.
+Proof.
+  induction l as [|q t IH]; cbn [rs_retry_list]; intros e acc e' acc' H.
+  - inversion H; subst. exists []. rewrite app_nil_r. split; [reflexivity|left; reflexivity].
+  - destruct (rs_reset_if_any sid e q) as [e1 r] eqn:E. destruct (IH _ _ _ _ H) as (news & Hn & Hk).
+    exists ([r] ++ news). rewrite Hn, <- app_assoc. split; [reflexivity|].
+    eapply rs_done_ok_trans; [eapply rs_reset_if_any_done_ok; exact E|exact Hk].
+Qed.
+
+Lemma rs_pop_loop_done sid : forall fuel e acc e' acc',
+  rs_pop_loop fuel sid e acc = (e', acc') -> exists news, acc' = acc ++ news /\ rs_done_ok e e' news.
+Proof.
+  induction fuel as [|f IH]; cbn [rs_pop_loop]; intros e acc e' acc' H.
+  - inversion H; subst. exists []. rewrite app_nil_r. split; [reflexivity|left; reflexivity].
+  - destruct (rs_mem (wrap32 (rs_cum e + 1)) (rs_rcvd e)).
+    + match type of H with context [rs_retry sid ?E acc] => destruct (rs_retry sid E acc) as [e2 acc2] eqn:Er end.
+      unfold rs_retry in Er. destruct (rs_retry_list_done _ _ _ _ _ _ Er) as (n1 & Hn1 & Hk1).
+      destruct (IH _ _ _ _ H) as (n2 & Hn2 & Hk2). exists (n1 ++ n2). subst. rewrite app_assoc. split; [reflexivity|].
+      eapply rs_done_ok_trans; [|exact Hk2]. exact Hk1.
+    + inversion H; subst. exists []. rewrite app_nil_r. split; [reflexivity|left; reflexivity].
+Qed.
+
+Lemma rs_gather_keeps_done sid e items ids e' g : rs_gather sid e items ids = Some (e', g) -> rs_done e' = rs_done e.
+Proof.
+  unfold rs_gather. intros H.
+  destruct (rs_gather_items items (count_occ Z.eq_dec ids sid) e 0 [] []) as [[[[n1 e1] s1] m1]|] eqn:Eg; [|discriminate].
+  destruct (rs_gather_items_shape _ _ _ _ _ _ _ _ _ _ Eg) as (u & o & s & t & He1).
+  destruct (rs_skip_markers n1 e1 m1) as [[n2 e2] m2] eqn:Ek.
+  destruct (rs_skip_markers_shape _ _ _ _ _ _ Ek) as (u2 & o2 & s2 & He2). destruct n2; [|discriminate].
+  subst. destruct ids; inversion H; subst; reflexivity.
+Qed.
+
+Lemma rs_step_done sid e ev e' out : rs_ep_step sid e ev = Some (e', out) -> rs_done_ok e e' (rs_o_resps out).
+Proof.
+  intros H. destruct ev; cbn [rs_ep_step] in H.
+  - inversion H; subst. left. unfold rs_open. destruct (rs_present e); reflexivity.
+  - unfold rs_write in H. destruct (negb (rs_state (rs_obj e) =? rs_st_open)); [inversion H; subst; left; reflexivity|].
+    destruct (negb (rs_estab e)); [inversion H; subst; left; reflexivity|].
+    destruct (rs_fifo e || negb unord)%bool; inversion H; subst; left; reflexivity.
+  - unfold rs_close in H. destruct (rs_state (rs_obj e) =? rs_st_open); [|inversion H; subst; left; reflexivity].
+    destruct (rs_estab e); inversion H; subst; left; reflexivity.
+  - unfold rs_read in H. destruct (rs_read_strm (rs_obj e)). inversion H; subst. left. reflexivity.
+  - destruct (rs_gather sid e items ids) as [[e1 g]|] eqn:E; [|discriminate]. inversion H; subst. left.
+    eapply rs_gather_keeps_done; exact E.
+  - inversion H; subst. left. reflexivity.
+  - inversion H; subst. left. unfold rs_recv_response. destruct (result =? c_reconfigResultInProgress); [reflexivity|].
+    cbn [fst]. destruct (result =? c_reconfigResultSuccessPerformed); [|reflexivity].
+    destruct (rs_req_get (rs_reconfigs e) rsn); [|reflexivity].
+    destruct (rs_mem sid (rs_q_ids r) && rs_present e && negb (rs_state (rs_obj e) =? rs_st_open))%bool; reflexivity.
+  - destruct (rs_recv_request sid e q) as [[e1 r]|] eqn:E; inversion H; subst; [|left; reflexivity]. cbn [rs_o_resps].
+    unfold rs_recv_request in E. destruct (_ && _)%bool; [discriminate|]. inversion E as [E1].
+    apply rs_reset_if_any_done_ok in E1. exact E1.
+  - destruct (rs_recv_data sid e tsn mine simple ssn) as [e1 rs] eqn:E; inversion H; subst. cbn [rs_o_resps].
+    unfold rs_recv_data, rs_cum_advanced in E. destruct (rs_pop_loop_done _ _ _ _ _ _ E) as (news & Hn & Hk). cbn [app] in Hn. subst.
+    destruct Hk as [Hk|Hk]; [left|right; exact Hk]. rewrite Hk.
+    destruct (rs_can_push e tsn); [|reflexivity]. destruct mine; [|reflexivity]. destruct (rs_present e); destruct simple; reflexivity.
+  - destruct (rs_recv_fwd sid e newcum skip) as [e1 rs] eqn:E; inversion H; subst. cbn [rs_o_resps].
+    unfold rs_recv_fwd in E. destruct (sna32LTE newcum (rs_cum e)); [inversion E; subst; left; reflexivity|].
+    unfold rs_cum_advanced in E. destruct (rs_pop_loop_done _ _ _ _ _ _ E) as (news & Hn & Hk). cbn [app] in Hn. subst.
+    destruct Hk as [Hk|Hk]; [left|right; exact Hk]. rewrite Hk. destruct skip; [destruct (rs_present _)|]; reflexivity.
 Qed.
